@@ -34,7 +34,8 @@ META = {
                   "byte with the upper three zero.",
     "explanation": "symbolic execution of hid.send/_send_raw/_handle_read, serial send/send_dali_command/"
                    "data_received with symbolic gateway reports under a virtual clock",
-    "bounds": ["command shapes: 7 (enumerated), report type/status/value bytes symbolic",
+    "bounds": ["hasseb report delayed 0.01/0.3/0.7/2.5 s with a queued second caller; ATX history with 0..2 foreign lines per command; daliserver replies in one segment or one each",
+               "command shapes: 7 (enumerated), report type/status/value bytes symbolic",
                "daliserver client: every history of 2 (thorough 3) commands from {numeric query, yes/no query, "
                "non-query, send-twice} over a persistent or per-command connection, every transmission with its "
                "own symbolic status (0/1/255) and value",
